@@ -10,6 +10,7 @@ import (
 	"sort"
 	"strings"
 	"sync"
+	"verifharness/gen"
 
 	"pgregory.net/rapid"
 
@@ -58,7 +59,7 @@ func (d *declGen) id() int { d.n++; return d.n }
 // definition names it yields.
 func (d *declGen) good() (src string, names []string) {
 	i := d.id()
-	switch rapid.IntRange(0, 5).Draw(d.t, "good") {
+	switch gen.Range(d.t, "good", 0, 5) {
 	case 0:
 		return fmt.Sprintf("const C%d uint64 = %d\n", i, i), []string{fmt.Sprintf("C%d", i)}
 	case 1:
@@ -80,7 +81,7 @@ func (d *declGen) good() (src string, names []string) {
 func (d *declGen) bad() (src string, name string) {
 	i := d.id()
 	name = fmt.Sprintf("B%d", i)
-	switch rapid.IntRange(0, 6).Draw(d.t, "bad") {
+	switch gen.Range(d.t, "bad", 0, 6) {
 	case 0:
 		src = fmt.Sprintf("func %s() (r uint64) {\n\treturn\n}\n", name)
 	case 1:
@@ -102,7 +103,7 @@ func (d *declGen) bad() (src string, name string) {
 // broken returns a declaration that makes the package fail to load.
 func (d *declGen) broken() string {
 	i := d.id()
-	switch rapid.IntRange(0, 2).Draw(d.t, "broken") {
+	switch gen.Range(d.t, "broken", 0, 2) {
 	case 0:
 		return fmt.Sprintf("func L%d() uint64 {\n\treturn \"s\"\n}\n", i)
 	case 1:
@@ -138,13 +139,13 @@ func genCase(t *rapid.T) Case {
 	feat := map[string]bool{}
 
 	// ---- flags ----
-	ignore := rapid.IntRange(0, 9).Draw(t, "ignore") >= 7
+	ignore := gen.Range(t, "ignore", 0, 9) >= 7
 	allowLoad := !(ignore && loadIgnoreSwitch())
 	if ignore {
 		c.Flags = append(c.Flags, "-ignore-errors")
 	}
 	for _, f := range []string{"-typecheck", "-source-comments", "-skip-interfaces"} {
-		if rapid.IntRange(0, 3).Draw(t, f) == 0 {
+		if gen.Range(t, f, 0, 3) == 0 {
 			c.Flags = append(c.Flags, f)
 		}
 	}
@@ -161,20 +162,20 @@ func genCase(t *rapid.T) Case {
 
 	// ---- module ----
 	modPath := rapid.SampledFrom(modPaths).Draw(t, "modpath")
-	nPkgs := rapid.IntRange(1, 6).Draw(t, "npkgs")
+	nPkgs := gen.Range(t, "npkgs", 1, 6)
 	var pkgs []pkgGen
 	usedDir := map[string]bool{}
 	usedCoq := map[string]bool{}
 	for i := 0; i < nPkgs; i++ {
 		var dir string
-		switch k := rapid.IntRange(0, 5).Draw(t, "dirkind"); {
+		switch k := gen.Range(t, "dirkind", 0, 5); {
 		case k == 0 && !usedDir[""]:
 			dir = ""
 		case k <= 2 && len(pkgs) > 0:
 			parent := rapid.SampledFrom(pkgs).Draw(t, "parent").dir
 			dir = path.Join(parent, rapid.SampledFrom(segments).Draw(t, "seg"))
 		default:
-			depth := rapid.IntRange(1, 3).Draw(t, "depth")
+			depth := gen.Range(t, "depth", 1, 3)
 			var segs []string
 			for j := 0; j < depth; j++ {
 				segs = append(segs, rapid.SampledFrom(segments).Draw(t, "seg"))
@@ -198,13 +199,13 @@ func genCase(t *rapid.T) Case {
 		if dir == "" {
 			name = "rootpkg"
 		}
-		if name == "" || rapid.IntRange(0, 3).Draw(t, "rename") == 0 {
+		if name == "" || gen.Range(t, "rename", 0, 3) == 0 {
 			name = fmt.Sprintf("pk%d", i)
 			plain = false
 			feat["pkgname≠dirname"] = true
 		}
 		class := "good"
-		switch k := rapid.IntRange(0, 9).Draw(t, "class"); {
+		switch k := gen.Range(t, "class", 0, 9); {
 		case k >= 8:
 			class = "load"
 			if !loadOK() {
@@ -226,7 +227,7 @@ func genCase(t *rapid.T) Case {
 		p.baseFn = fmt.Sprintf("Base%d", pi)
 		f0.decls = append(f0.decls, fmt.Sprintf("func %s() uint64 {\n\treturn %d\n}\n", p.baseFn, pi))
 		f0.plant.Good = append(f0.plant.Good, p.baseFn)
-		if rapid.IntRange(0, 2).Draw(t, "pkgdoc") == 0 {
+		if gen.Range(t, "pkgdoc", 0, 2) == 0 {
 			f0.tag = fmt.Sprintf("// Package %s is generated.\n", p.name)
 		}
 		files = append(files, f0)
@@ -236,7 +237,7 @@ func genCase(t *rapid.T) Case {
 			files = append(files, f)
 			selected = append(selected, f)
 		}
-		if rapid.IntRange(0, 2).Draw(t, "tagged") == 0 {
+		if gen.Range(t, "tagged", 0, 2) == 0 {
 			tg := rapid.SampledFrom([][2]string{
 				{"tagged.go", "//go:build goose\n\n"},
 				{"both.go", "//go:build goose && linux\n\n"},
@@ -250,7 +251,7 @@ func genCase(t *rapid.T) Case {
 			feat["file:"+tg[0]] = true
 		}
 		// import of an earlier package
-		if p.class != "load" && rapid.IntRange(0, 2).Draw(t, "import") == 0 {
+		if p.class != "load" && gen.Range(t, "import", 0, 2) == 0 {
 			var cands []pkgGen
 			for _, q := range pkgs[:pi] {
 				if q.importable {
@@ -267,7 +268,7 @@ func genCase(t *rapid.T) Case {
 		}
 		// good declarations everywhere
 		for _, f := range selected {
-			for k := rapid.IntRange(0, 2).Draw(t, "ngood"); k > 0; k-- {
+			for k := gen.Range(t, "ngood", 0, 2); k > 0; k-- {
 				src, names := d.good()
 				f.decls = append(f.decls, src)
 				f.plant.Good = append(f.plant.Good, names...)
@@ -276,10 +277,10 @@ func genCase(t *rapid.T) Case {
 		// what makes the package fail
 		switch p.class {
 		case "conv":
-			for k := rapid.IntRange(1, 3).Draw(t, "nbad"); k > 0; k-- {
+			for k := gen.Range(t, "nbad", 1, 3); k > 0; k-- {
 				f := rapid.SampledFrom(selected).Draw(t, "badfile")
 				src, name := d.bad()
-				pos := rapid.IntRange(0, len(f.decls)).Draw(t, "badpos")
+				pos := gen.Range(t, "badpos", 0, len(f.decls))
 				f.decls = append(f.decls[:pos], append([]string{src}, f.decls[pos:]...)...)
 				f.plant.Bad = append(f.plant.Bad, name)
 			}
@@ -317,7 +318,7 @@ func genCase(t *rapid.T) Case {
 			files = append(files, f)
 			feat["file:"+ex[0]] = true
 		}
-		if rapid.IntRange(0, 2).Draw(t, "testfile") == 0 {
+		if gen.Range(t, "testfile", 0, 2) == 0 {
 			f := &fileGen{name: "a_test.go"}
 			src, name := d.bad()
 			f.decls = append(f.decls, src, d.broken())
@@ -340,7 +341,7 @@ func genCase(t *rapid.T) Case {
 	c.Module.Path = modPath
 	sort.Slice(c.Module.Files, func(i, j int) bool { return c.Module.Files[i].Path < c.Module.Files[j].Path })
 
-	hasEmpty := rapid.IntRange(0, 2).Draw(t, "emptydir") == 0 && !usedDir["emptyd"]
+	hasEmpty := gen.Range(t, "emptydir", 0, 2) == 0 && !usedDir["emptyd"]
 	if hasEmpty {
 		c.EmptyDirs = []string{"m/emptyd/sub"}
 	}
@@ -363,13 +364,13 @@ func genCase(t *rapid.T) Case {
 	if rapid.Bool().Draw(t, "effsub") {
 		eff = rapid.SampledFrom(dirs).Draw(t, "eff")
 	}
-	if hasEmpty && rapid.IntRange(0, 9).Draw(t, "effempty") == 0 {
+	if hasEmpty && gen.Range(t, "effempty", 0, 9) == 0 {
 		eff = "emptyd"
 	}
 	c.Eff = path.Join("m", eff)
 
 	// ---- cwd and -dir ----
-	switch rapid.IntRange(0, 5).Draw(t, "cwdmode") {
+	switch gen.Range(t, "cwdmode", 0, 5) {
 	case 0, 1:
 		c.Cwd, c.Dir = c.Eff, ""
 		feat["dir:absent"] = true
@@ -395,7 +396,7 @@ func genCase(t *rapid.T) Case {
 	}
 
 	// ---- -out ----
-	switch rapid.IntRange(0, 5).Draw(t, "outmode") {
+	switch gen.Range(t, "outmode", 0, 5) {
 	case 0:
 		c.Out = ""
 		feat["out:absent(cwd)"] = true
@@ -438,7 +439,7 @@ func genCase(t *rapid.T) Case {
 		return modPath + "/" + dir
 	}
 	dotOK := isPkgDir[eff] || allowLoad
-	nPat := rapid.IntRange(0, 3).Draw(t, "npat")
+	nPat := gen.Range(t, "npat", 0, 3)
 	if nPat == 0 && !dotOK {
 		if !isPkgDir[eff] {
 			ev.Prune(swLoadIgnore)
@@ -447,7 +448,7 @@ func genCase(t *rapid.T) Case {
 	}
 	for i := 0; i < nPat; i++ {
 		var p Pattern
-		switch k := rapid.IntRange(0, 11).Draw(t, "patkind"); k {
+		switch k := gen.Range(t, "patkind", 0, 11); k {
 		case 0:
 			p = Pattern{".", "dot"}
 			if !dotOK {
@@ -459,7 +460,7 @@ func genCase(t *rapid.T) Case {
 		case 3, 4:
 			q := rapid.SampledFrom(pkgs).Draw(t, "patpkg")
 			p = Pattern{relTo(q.dir), "relative"}
-			if rapid.IntRange(0, 3).Draw(t, "slash") == 0 && p.Text != "." && p.Text != ".." {
+			if gen.Range(t, "slash", 0, 3) == 0 && p.Text != "." && p.Text != ".." {
 				p.Text += "/"
 			}
 		case 5:
@@ -518,7 +519,7 @@ func genCase(t *rapid.T) Case {
 		{Path: "Goose/old.v", Content: "(* old *)\n"},
 	}
 	for _, u := range unrel {
-		if rapid.IntRange(0, 2).Draw(t, "unrelated") == 0 {
+		if gen.Range(t, "unrelated", 0, 2) == 0 {
 			c.Unrelated = append(c.Unrelated, u)
 		}
 	}
